@@ -298,10 +298,18 @@ def fam_path(R, n):
         fa = farthest_point_in_path(z, p)
         return segs, r, cl, fa
 
+    probed = []
     for ctx, (kind, val) in explore(run, maxpaths=3000):
         R.path(ctx)
         if kind != 'ok':
-            R.error('unexpected %s %r' % (kind, val))
+            # the reduction asked an opaque segment for something other than radialrange(): outside the model.  Probe the real
+            # code on fixed paths (lines; closed Bezier loops) before giving up: a reproduction is a confirmed counterexample.
+            if not probed and R.probe('n%d.reduction-consults-more-than-radialrange' % n,
+                                      {'cls': 'Path.radialrange reduction', 'inputs': {'unexpected': '%s %r' % (kind, val)},
+                                       'script': REPLAY_PATH % ([(1 + 0j, 2 + 0j), (0.5j, 3j)], 0j)}):
+                probed.append(1)
+            if not probed:
+                R.error('unexpected %s %r' % (kind, val))
             continue
         segs, (gmin, gmax), cl, fa = val
 
